@@ -571,6 +571,7 @@ struct Net : sim::configuration
 	std::map<std::pair<ip::address, ip::address>, std::vector<QSpec>> net_spec;
 	bool net_per_pair = false; // separate queue objects per ordered pair
 	std::map<ip::address, ip::address> nat_ext;   // node address -> external address (NAT as last outgoing hop)
+	std::map<ip::address, ip::address> nat_ext2;  // a second NAT behind the first (home NAT, then carrier-grade NAT): its address is the visible one
 	std::map<ip::address, ip::address> nat_in;    // NAT placed on the incoming route (for the SYN-ACK direction tests)
 	int def_mtu = 1475;
 	std::map<std::pair<ip::address, ip::address>, int> mtu; // symmetric: stored with first <= second
@@ -672,6 +673,8 @@ struct Net : sim::configuration
 			add_queues(b, s != out_spec.end() ? s->second : def_out, "out[" + a.to_string() + "]");
 			auto n = nat_ext.find(a);
 			if (n != nat_ext.end()) b.hops.push_back(std::make_shared<sim::nat>(n->second));
+			auto n2 = nat_ext2.find(a);
+			if (n2 != nat_ext2.end()) b.hops.push_back(std::make_shared<sim::nat>(n2->second));
 			it = out_built.insert(std::make_pair(a, b)).first;
 		}
 		return to_route(it->second);
